@@ -111,11 +111,10 @@ func alglistPart(c *engine.Check, t *testing.T) {
 
 	// quick:    full {verifier, mut, alg, allowed}, default key set; full {verifier, allowed} x <=1 deviation
 	//           of everything else (token kid, key slots, cache state, mutation, algorithm).
-	// thorough: full {verifier, mut, alg, allowed} x <=1 deviation; full {verifier, alg, allowed} x <=2 deviations.
+	// thorough: full {verifier, mut, alg, allowed} x <=1 deviation; full {verifier, allowed} x <=2 deviations.
 	groups := [][]string{{"verifier", "mut", "alg", "allowed"}, {"verifier", "allowed"}}
 	ks := []int{0, 1}
 	if c.Thorough() {
-		groups = [][]string{{"verifier", "mut", "alg", "allowed"}, {"verifier", "alg", "allowed"}}
 		ks = []int{1, 2}
 	}
 	c.RunE1(engine.E1{
